@@ -142,6 +142,48 @@ def run(check):
         r_tr.violate('%s not re-rated' % b, trig, None, 'the shutdown trigger does not call %s.setCapacityAndFillRate'
                      % b, construct='%s.setCapacityAndFillRate' % b)
 
+  # ------------------------------------------------------------------ "nothing to hand out" is answered from the live cache
+  r_ea = check.rule('R-C04-empty-answer', 2, 'drain_metric says "nothing to drain" only after asking the cache / the strategy in that very call')
+  from ..paths import PathExec, mentions
+  from ..symeval import canon
+  dm = repo.cls('carbon.cache', '_MetricCache').methods.get('drain_metric')
+  if dm is None:
+    r_ea.cannot_decide('_MetricCache.drain_metric not found')
+  else:
+    gdm = cx.cfg(dm)
+    px = PathExec(cx, dm, unroll=0, follow_exceptions=False)
+    SELF = ('param', dm.params[0])
+    rets = [n for n in gdm.nodes if n.kind == 'stmt' and isinstance(n.ast, ast.Return)]
+    n_none = 0
+    for hit in px.run(rets):
+      v = hit.term(hit.node.ast.value, px) if hit.node.ast.value is not None else ('const', None)
+      first = v[1] if isinstance(v, tuple) and v[0] == 'tuple' and len(v) > 1 else v
+      if first != ('const', None):
+        continue
+      n_none += 1
+      justified = False
+      other = None
+      for pol, t, a, n in hit.conds:
+        if pol not in ('T', 'F') or not isinstance(t, tuple):
+          continue
+        if t == ('truth', SELF) and pol == 'F':
+          justified = True          # `not self`: the cache is empty right now
+        elif t[0] == 'cmp' and t[1] in ('Is', 'Eq') and t[3] == ('const', None) and pol == 'T' and \
+            mentions(t[2], lambda x: isinstance(x, tuple) and ((x[0] == 'meth' and x[1] == 'choose_item') or
+                                                                (x[0] == 'call' and x[1] in ('next', 'self.strategy.choose_item')))):
+          justified = True          # the strategy (or the plain iteration) was asked in this call and had nothing
+        elif t[0] == 'truth' and isinstance(t[1], tuple) and t[1][0] == 'attr' and t[1][1] == SELF and t[1][2] != 'strategy':
+          other = a
+      if justified and other is None:
+        r_ea.ok('"nothing to drain" follows an emptiness test / a strategy answer of this call', dm.loc(hit.node.ast))
+      else:
+        r_ea.violate('stale "nothing to drain"', dm, other if other is not None else hit.node.ast, 'drain_metric can answer (None, ...) '
+                     'on a path decided by `%s` rather than by asking the cache or the strategy in this call: remembered state goes '
+                     'stale when the clock or a setting (the lag zeroed at shutdown) changes what the strategy would hand out, and '
+                     'the final pass then ends with datapoints still cached' % (unparse(other) if other is not None else 'nothing'))
+    if not n_none:
+      r_ea.cannot_decide('drain_metric has no path that answers "nothing to drain"')
+
   # ------------------------------------------------------------------ zeroing the lag really switches the lag filter off
   r_lg = check.rule('R-C04-lag-off', 1, 'with MIN_TIMESTAMP_LAG = 0 (installed by the shutdown trigger) no strategy holds metrics back')
   from .c17 import lag_filter_guard
